@@ -163,7 +163,7 @@ reg('C06', 'other',
     MACHINE + ' Float precision of huge values is not examined (the digit text is checked, the value only through the formatter).',
     T_VM, 'DESIGN.md §10.3')
 reg('C07', 'other',
-    [lexeval.rule_reject_inert, builder.rule_fail_atomic, scanvm.rule_scanner_validator, scanvm.rule_validator_scanner, sentences.rule_spans_validate],
+    [lexeval.rule_reject_inert, lexeval.rule_group_inert, builder.rule_fail_atomic, scanvm.rule_scanner_validator, scanvm.rule_validator_scanner, sentences.rule_spans_validate],
     "A8b every lexicon word x builder-state x {apply, apply_decimal}: an accepted word issues exactly one builder operation, a rejected word issues none, "
     "writes no marker, does not freeze; B3 in every &mut self -> Result method of DigitString no write can be followed by an Err exit (a failed operation "
     "changes nothing); V07 the scanner's case table: spans hold accepted / linking words only and end on an accepted word, a word rejected inside a number "
